@@ -896,7 +896,12 @@ def format_toc(obj: model.Documentable) -> Optional[Tag]:
 
     if obj.parsed_docstring:
         if obj.system.options.sidebartocdepth > 0:
-            toc = obj.parsed_docstring.get_toc(depth=obj.system.options.sidebartocdepth)
+            try:
+                toc = obj.parsed_docstring.get_toc(depth=obj.system.options.sidebartocdepth)
+            except Exception:
+                # like for the docstring itself, a failure of the renderer must not abort the run;
+                # the problem is reported when the full docstring gets rendered.
+                toc = None
             if toc:
                 return safe_to_stan(toc, obj.docstring_linker, obj, report=False,
                     fallback=lambda _,__,___:BROKEN)
